@@ -37,7 +37,7 @@ func parseOp(part string) Op {
 	}
 	f := strings.Fields(part)
 	op := Op{K: f[0]}
-	if f[0] == "merge" && len(f) > 1 {
+	if (f[0] == "merge" || f[0] == "restartfs") && len(f) > 1 {
 		op.Arg, _ = strconv.Atoi(f[1])
 		return op
 	}
